@@ -423,3 +423,42 @@ pub fn thread_local_setup() -> Option<String> {
     }
     None
 }
+
+/// C04: a par/seq tree registered as a thread-local system: every dispatch of the dispatcher runs every leaf exactly once,
+/// stateless (zero-sized) leaves included
+pub fn thread_local_counts() -> Option<String> {
+    use shred::{par, seq};
+    let ctx = Ctx::new();
+    *ZCTX.lock().unwrap() = Some(ctx.clone());
+    for (k, uid) in [1usize, 2, 3].iter().enumerate() {
+        ZUID[k].store(*uid, std::sync::atomic::Ordering::SeqCst);
+    }
+    let leaf = |uid: usize| LogSys::new(uid, vec![], vec![], 3, ctx.clone());
+    let tree = par![leaf(0), Zst0, seq![Zst1, Zst2,], leaf(4),];
+    let mut b = crate::real::Builder::new();
+    b.add_pool(pool());
+    b.add(leaf(5), "s", &[]);
+    b.add_thread_local(ParSeq::new(tree, pool()));
+    let mut d = b.build();
+    let mut world = World::empty();
+    d.setup(&mut world);
+    ctx.take();
+    let k = 3;
+    for _ in 0..k {
+        d.dispatch(&world);
+    }
+    let evs = ctx.take();
+    for u in 0..6 {
+        let n = evs.iter().filter(|e| e.uid == u && e.k == EvK::Enter).count();
+        if n != k {
+            return Some(format!(
+                "{} dispatches ran system #{} {} times ({}); the dispatcher has one ordinary system and the tree par![#0, #1, seq![#2, #3,], #4,] as a thread-local system",
+                k,
+                u,
+                n,
+                if (1..=3).contains(&u) { "a stateless, zero-sized leaf of the tree" } else if u < 5 { "a leaf of the tree" } else { "the ordinary system" }
+            ));
+        }
+    }
+    None
+}
